@@ -851,7 +851,9 @@ static int pki_truststore_verifyCertificateConstraints(const KSI_PKITruststore *
 			goto cleanup;
 		}
 
-		if (strncmp(tmp, ptr->val, sizeof(tmp))) {
+		/* The whole attribute value must equal the expected value: a value with an embedded NUL
+		 * or one truncated to the buffer must not match its prefix. */
+		if ((size_t)res != strlen(ptr->val) || X509_NAME_get_text_by_OBJ(subj, oid, NULL, 0) != res || memcmp(tmp, ptr->val, (size_t)res)) {
 			KSI_LOG_debug(pki->ctx, "Unexpected value: '%s' for OID: '%s'.", tmp, ptr->oid);
 			KSI_pushError(pki->ctx, res = KSI_PKI_CERTIFICATE_NOT_TRUSTED, "Unexpected OID value for PKI Certificate constraint.");
 			goto cleanup;
